@@ -42,7 +42,7 @@ theorem Holds.binop {ctx : Ctx} {env : Env} {d : String} {ty : Ty} {op : BinOp} 
       | error e => simp [hx, hy, hv] at this
       | ok w =>
         simp only [hx, hy, hv, Except.ok.injEq, Prod.mk.injEq, Option.some.injEq, true_and] at this
-        exact ⟨x, y, w, rfl, rfl, rfl, this ▸ hget⟩
+        exact ⟨x, y, w, rfl, rfl, hv, this ▸ hget⟩
 
 theorem Holds.cast {ctx : Ctx} {env : Env} {d : String} {ty : Ty} {a : Operand} (h : Holds ctx env (.cast d ty a)) :
     ∃ x v, evalOpnd ctx env a = .ok x ∧ evalCast ctx.cfg ty x = .ok v ∧ env.get d = some v := by
@@ -57,7 +57,7 @@ theorem Holds.cast {ctx : Ctx} {env : Env} {d : String} {ty : Ty} {a : Operand} 
     | error e => simp [hx, hv] at this
     | ok w =>
       simp only [hx, hv, Except.ok.injEq, Prod.mk.injEq, Option.some.injEq, true_and] at this
-      exact ⟨x, w, rfl, rfl, this ▸ hget⟩
+      exact ⟨x, w, rfl, hv, this ▸ hget⟩
 
 /-- `defPos` finds an instruction that defines the name -/
 theorem defPos_spec {f : Func} {T : DomTab} (hf : SSAFacts f T) {x : String} {p : Pos} (h : defPos f x = some p) :
@@ -66,8 +66,760 @@ theorem defPos_spec {f : Func} {T : DomTab} (hf : SSAFacts f T) {x : String} {p 
   obtain ⟨b, hbm, hb⟩ := List.exists_of_findSome?_eq_some h
   simp only [Option.map_eq_some_iff] at hb
   obtain ⟨k, hk, rfl⟩ := hb
-  obtain ⟨hlt, hpred⟩ := List.findIdx?_eq_some_iff_getElem.1 hk |>.imp (fun _ => id) (fun h => h)
+  obtain ⟨hlt, hpred⟩ := List.findIdx?_eq_some_iff_getElem.1 hk
   refine ⟨b.instrs[k], instrAtPos_iff.2 ⟨b, findBlock_of_mem hf.names hbm, by simp [List.getElem?_eq_getElem hlt]⟩, ?_⟩
   simpa using hpred.1
+
+
+/-- the equations at point `u` hold in `env` -/
+def InvAt (ctx : Ctx) (f : Func) (T : DomTab) (u : Pos) (env : Env) : Prop :=
+  ∀ p j, instrAtPos f p = some j → pureKind j = true → sdomPt T p u = true → Holds ctx env j
+
+theorem evalOpnd_loc {ctx : Ctx} {env : Env} {x : String} {v : Val} (h : env.get x = some v) :
+    evalOpnd ctx env (.loc x) = .ok v := by
+  simp only [evalOpnd, h]
+
+theorem knownInt_sound {ctx : Ctx} {f : Func} {T : DomTab} (hf : SSAFacts f T) {u : Pos} {env : Env}
+    (hinv : InvAt ctx f T u env) :
+    ∀ (n : Nat) (o : Operand) (v : Int), knownInt f T u n o = some v → evalOpnd ctx env o = .ok (.int v)
+  | 0, o, v, h => by simp [knownInt] at h
+  | n + 1, .glob g, v, h => by simp [knownInt] at h
+  | n + 1, .loc x, v, h => by
+    simp only [knownInt] at h
+    cases hp : defPos f x with
+    | none => simp [hp] at h
+    | some p =>
+      simp only [hp] at h
+      cases hs : sdomPt T p u with
+      | false => simp [hs] at h
+      | true =>
+        simp only [hs, ↓reduceIte] at h
+        obtain ⟨i, hi, hdx⟩ := defPos_spec hf hp
+        simp only [hi] at h
+        cases i <;> try (simp at h; done)
+        case const d ty c =>
+          simp only [dstName, Instr.dst?, Option.map, Option.some.injEq] at hdx; subst hdx
+          cases ty <;> try (simp at h; done)
+          case int t =>
+            cases c <;> try (simp at h; done)
+            case int cv =>
+              simp only [Option.some.injEq] at h
+              subst h
+              obtain ⟨w, hw, hget⟩ := (hinv p _ hi rfl hs).const
+              simp only [Spec.IR.evalConst, Except.ok.injEq] at hw; subst hw
+              exact evalOpnd_loc hget
+        case binop d ty op a b =>
+          simp only [dstName, Instr.dst?, Option.map, Option.some.injEq] at hdx; subst hdx
+          cases ty <;> try (simp at h; done)
+          case int t =>
+            cases ha : knownInt f T u n a with
+            | none => simp [ha] at h
+            | some xa =>
+              cases hb : knownInt f T u n b with
+              | none => simp [ha, hb] at h
+              | some xb =>
+                simp only [ha, hb] at h
+                obtain ⟨x, y, w, hx, hy, hw, hget⟩ := (hinv p _ hi rfl hs).binop
+                rw [knownInt_sound hf hinv n a xa ha] at hx
+                rw [knownInt_sound hf hinv n b xb hb] at hy
+                simp only [Except.ok.injEq] at hx hy; subst hx hy
+                simp only [evalBinop] at hw
+                rw [hw] at h
+                cases w <;> try (simp at h; done)
+                simp only [Option.some.injEq] at h
+                subst h
+                exact evalOpnd_loc hget
+        case cast d ty a =>
+          simp only [dstName, Instr.dst?, Option.map, Option.some.injEq] at hdx; subst hdx
+          cases ty <;> try (simp at h; done)
+          case int t =>
+            cases ha : knownInt f T u n a with
+            | none => simp [ha] at h
+            | some xa =>
+              simp only [ha, Option.some.injEq] at h
+              subst h
+              obtain ⟨x, w, hx, hw, hget⟩ := (hinv p _ hi rfl hs).cast
+              rw [knownInt_sound hf hinv n a xa ha] at hx
+              simp only [Except.ok.injEq] at hx; subst hx
+              simp only [evalCast, Except.ok.injEq] at hw; subst hw
+              exact evalOpnd_loc hget
+
+/-- a justified replacement operand has the value of the operand it replaces -/
+theorem justB_sound {ctx : Ctx} {f : Func} {T : DomTab} (hf : SSAFacts f T) {u : Pos} {env : Env}
+    (hinv : InvAt ctx f T u env) :
+    ∀ (n : Nat) (o o' : Operand), justB f T u n o o' = true → evalOpnd ctx env o' = evalOpnd ctx env o
+  | 0, o, o', h => by
+    simp only [justB, beq_iff_eq] at h; rw [h]
+  | n + 1, o, o', h => by
+    simp only [justB, Bool.or_eq_true, beq_iff_eq] at h
+    rcases h with (h | h) | h
+    · rw [h]
+    · cases h1 : knownInt f T u (n + 1) o with
+      | none => simp [h1] at h
+      | some v =>
+        cases h2 : knownInt f T u (n + 1) o' with
+        | none => simp [h1, h2] at h
+        | some v' =>
+          simp only [h1, h2, beq_iff_eq] at h; subst h
+          rw [knownInt_sound hf hinv _ _ _ h1, knownInt_sound hf hinv _ _ _ h2]
+    · cases o <;> cases o' <;> try (simp at h; done)
+      case loc.loc x y =>
+        cases hpx : defPos f x with
+        | none => simp [hpx] at h
+        | some px =>
+          cases hpy : defPos f y with
+          | none => simp [hpx, hpy] at h
+          | some py =>
+            simp only [hpx, hpy, Bool.and_eq_true] at h
+            obtain ⟨⟨hsx, hsy⟩, h⟩ := h
+            obtain ⟨ix, hix, hdx⟩ := defPos_spec hf hpx
+            obtain ⟨iy, hiy, hdy⟩ := defPos_spec hf hpy
+            simp only [hix, hiy] at h
+            cases ix <;> try (simp at h; done)
+            case const d ty c =>
+              cases iy <;> try (simp at h; done)
+              case const d' ty' c' =>
+                simp only [Bool.and_eq_true, beq_iff_eq] at h
+                obtain ⟨rfl, rfl⟩ := h
+                simp only [dstName, Instr.dst?, Option.map, Option.some.injEq] at hdx hdy; subst hdx hdy
+                obtain ⟨w, hw, hget⟩ := (hinv px _ hix rfl hsx).const
+                obtain ⟨w', hw', hget'⟩ := (hinv py _ hiy rfl hsy).const
+                rw [hw] at hw'; simp only [Except.ok.injEq] at hw'; subst hw'
+                rw [evalOpnd_loc hget, evalOpnd_loc hget']
+            case binop d ty op a b =>
+              cases iy <;> try (simp at h; done)
+              case binop d' ty' op' a' b' =>
+                simp only [Bool.and_eq_true, beq_iff_eq] at h
+                obtain ⟨⟨⟨rfl, rfl⟩, ha⟩, hb⟩ := h
+                simp only [dstName, Instr.dst?, Option.map, Option.some.injEq] at hdx hdy; subst hdx hdy
+                obtain ⟨x1, y1, w, hx, hy, hw, hget⟩ := (hinv px _ hix rfl hsx).binop
+                obtain ⟨x2, y2, w', hx', hy', hw', hget'⟩ := (hinv py _ hiy rfl hsy).binop
+                rw [justB_sound hf hinv n a a' ha, hx] at hx'
+                rw [justB_sound hf hinv n b b' hb, hy] at hy'
+                simp only [Except.ok.injEq] at hx' hy'; subst hx' hy'
+                rw [hw] at hw'; simp only [Except.ok.injEq] at hw'; subst hw'
+                rw [evalOpnd_loc hget, evalOpnd_loc hget']
+
+
+/-! ### static relation -/
+
+inductive InstrsSub (f : Func) (T : DomTab) (bn : String) : Nat → List Instr → List Instr → Prop
+  | nil {k : Nat} : InstrsSub f T bn k [] []
+  | cons {k : Nat} {i i' : Instr} {r r' : List Instr} : instrOk f T (bn, k) i i' = true →
+      InstrsSub f T bn (k + 1) r r' → InstrsSub f T bn k (i :: r) (i' :: r')
+
+inductive BlocksSub (f : Func) (T : DomTab) : List Block → List Block → Prop
+  | nil : BlocksSub f T [] []
+  | cons {b b' : Block} {bs bs' : List Block} : b'.name = b.name → InstrsSub f T b.name 0 b.instrs b'.instrs →
+      BlocksSub f T bs bs' → BlocksSub f T (b :: bs) (b' :: bs')
+
+structure FnSub (f f' : Func) : Prop where
+  name : f'.name = f.name
+  params : f'.params = f.params
+  ret : f'.ret = f.ret
+  entry : f'.entry = f.entry
+  facts : SSAFacts f (computeDoms f)
+  blocks : BlocksSub f (computeDoms f) f.blocks f'.blocks
+
+inductive FuncsSub : List Func → List Func → Prop
+  | nil : FuncsSub [] []
+  | cons {f f' : Func} {fs fs' : List Func} : FnSub f f' → FuncsSub fs fs' → FuncsSub (f :: fs) (f' :: fs')
+
+structure ModSub (m m' : Module) : Prop where
+  externs : m'.externs = m.externs
+  vars : m'.vars = m.vars
+  funcs : FuncsSub m.funcs m'.funcs
+
+theorem instrsOk_sound (f : Func) (T : DomTab) (bn : String) : ∀ (k : Nat) (l l' : List Instr),
+    instrsOk f T bn k l l' = true → InstrsSub f T bn k l l'
+  | _, [], [], _ => .nil
+  | k, i :: r, i' :: r', h => by
+    simp only [instrsOk, Bool.and_eq_true] at h
+    exact .cons h.1 (instrsOk_sound f T bn (k + 1) r r' h.2)
+  | _, [], _ :: _, h => by simp [instrsOk] at h
+  | _, _ :: _, [], h => by simp [instrsOk] at h
+
+theorem blocksOk_sound (f : Func) (T : DomTab) : ∀ (bs bs' : List Block), blocksOk f T bs bs' = true → BlocksSub f T bs bs'
+  | [], [], _ => .nil
+  | b :: bs, b' :: bs', h => by
+    simp only [blocksOk, Bool.and_eq_true, decide_eq_true_eq] at h
+    exact .cons h.1.1.symm (instrsOk_sound f T _ _ _ _ h.1.2) (blocksOk_sound f T bs bs' h.2)
+  | [], _ :: _, h => by simp [blocksOk] at h
+  | _ :: _, [], h => by simp [blocksOk] at h
+
+theorem checkSubstFn_sound {f f' : Func} (h : checkSubstFn f f' = true) : FnSub f f' := by
+  simp only [checkSubstFn, Bool.and_eq_true, decide_eq_true_eq] at h
+  exact ⟨h.1.1.1.1.1.symm, h.1.1.1.1.2.symm, h.1.1.1.2.symm, h.1.1.2.symm, ssaCheck_facts h.1.2, blocksOk_sound _ _ _ _ h.2⟩
+
+theorem funcsSubst_sound : ∀ (fs fs' : List Func), funcsSubst fs fs' = true → FuncsSub fs fs'
+  | [], [], _ => .nil
+  | f :: fs, f' :: fs', h => by
+    simp only [funcsSubst, Bool.and_eq_true] at h
+    exact .cons (checkSubstFn_sound h.1) (funcsSubst_sound fs fs' h.2)
+  | [], _ :: _, h => by simp [funcsSubst] at h
+  | _ :: _, [], h => by simp [funcsSubst] at h
+
+theorem checkSubst_modSub {m m' : Module} (h : checkSubst m m' = true) : ModSub m m' := by
+  simp only [checkSubst, Bool.and_eq_true, decide_eq_true_eq] at h
+  exact ⟨h.1.1.symm, h.1.2.symm, funcsSubst_sound _ _ h.2⟩
+
+theorem ModSub.modFacts {m m' : Module} (h : ModSub m m') : ModFacts m := by
+  intro f hf
+  have : ∀ {fs fs' : List Func}, FuncsSub fs fs' → ∀ f ∈ fs, SSAFacts f (computeDoms f) := by
+    intro fs fs' hr
+    induction hr with
+    | nil => intro f hf; simp at hf
+    | cons hfs _ ih =>
+      intro f hf
+      rcases List.mem_cons.1 hf with rfl | hf
+      · exact hfs.facts
+      · exact ih f hf
+  exact this h.funcs f hf
+
+/-! ### what `instrOk` means -/
+
+/-- the instruction `i'` is `i` with operands replaced by operands of equal value (at the given points) -/
+def SubAt (ctx : Ctx) (f : Func) (T : DomTab) (u : Pos) (i i' : Instr) : Prop :=
+  ∃ g : Operand → Operand, i' = mapOps g i ∧ calleeSame i (mapOps g i) = true ∧
+    (∀ env, InvAt ctx f T u env → ∀ o ∈ i.uses, evalOpnd ctx env (g o) = evalOpnd ctx env o) ∧
+    (∀ p ∈ i.phiIns, ∀ env, InvAt ctx f T (p.1, endIdx f p.1) env → evalOpnd ctx env (g p.2) = evalOpnd ctx env p.2)
+
+theorem instrOk_subAt {ctx : Ctx} {f : Func} {T : DomTab} (hf : SSAFacts f T) {u : Pos} {i i' : Instr}
+    (h : instrOk f T u i i' = true) : SubAt ctx f T u i i' := by
+  simp only [instrOk, Bool.or_eq_true, decide_eq_true_eq, Bool.and_eq_true, List.all_eq_true] at h
+  rcases h with rfl | ⟨⟨⟨h1, h0⟩, h2⟩, h3⟩
+  · exact ⟨id, (mapOps_id i).symm, by rw [mapOps_id]; cases i <;> simp [calleeSame],
+      fun _ _ _ _ => rfl, fun _ _ _ _ => rfl⟩
+  · exact ⟨_, h1, h1 ▸ h0, fun env hinv o ho => justB_sound hf hinv _ _ _ (h2 o ho),
+      fun p hp env hinv => justB_sound hf hinv _ _ _ (h3 p hp)⟩
+
+theorem instrsSub_length {f : Func} {T : DomTab} {bn : String} : ∀ {k : Nat} {l l' : List Instr},
+    InstrsSub f T bn k l l' → l'.length = l.length
+  | _, _, _, .nil => rfl
+  | _, _, _, .cons _ h => by simp [instrsSub_length h]
+
+theorem instrsSub_drop {f : Func} {T : DomTab} {bn : String} : ∀ {k0 : Nat} {l l' : List Instr},
+    InstrsSub f T bn k0 l l' → ∀ (k : Nat) {i : Instr} {r : List Instr}, l.drop k = i :: r →
+      ∃ i' r', l'.drop k = i' :: r' ∧ instrOk f T (bn, k0 + k) i i' = true ∧ l'.length = l.length
+  | _, _, _, .nil, k, i, r, h => by simp at h
+  | k0, _, _, .cons (i := j) (i' := j') (r := rr) (r' := rr') hok hrest, 0, i, r, h => by
+    simp only [List.drop_zero, List.cons.injEq] at h
+    obtain ⟨rfl, rfl⟩ := h
+    have hlen : rr'.length = rr.length := instrsSub_length hrest
+    exact ⟨j', rr', rfl, by simpa using hok, by simp [hlen]⟩
+  | k0, _, _, .cons hok hrest, k + 1, i, r, h => by
+    simp only [List.drop_succ_cons] at h
+    obtain ⟨i', r', h1, h2, h3⟩ := instrsSub_drop hrest k h
+    refine ⟨i', r', by simpa using h1, ?_, by simp [h3]⟩
+    have e : k0 + 1 + k = k0 + (k + 1) := by omega
+    rw [← e]; exact h2
+
+theorem findBlock_sub {f : Func} {T : DomTab} : ∀ {bs bs' : List Block}, BlocksSub f T bs bs' → ∀ (n : String),
+    (bs.find? (·.name = n) = none → bs'.find? (·.name = n) = none) ∧
+    (∀ b, bs.find? (·.name = n) = some b → ∃ b', bs'.find? (·.name = n) = some b' ∧ InstrsSub f T b.name 0 b.instrs b'.instrs)
+  | _, _, .nil, n => by simp
+  | _, _, .cons (b := b) (b' := b') hn ha hr, n => by
+    have ih := findBlock_sub hr n
+    by_cases hb : b.name = n
+    · simp [List.find?, hb, hn]; exact hb ▸ ha
+    · simp only [List.find?, hb, hn, decide_false]; exact ih
+
+theorem findFunc_sub : ∀ {fs fs' : List Func}, FuncsSub fs fs' → ∀ (n : String),
+    (fs.find? (·.name = n) = none → fs'.find? (·.name = n) = none) ∧
+    (∀ f, fs.find? (·.name = n) = some f → ∃ f', fs'.find? (·.name = n) = some f' ∧ FnSub f f')
+  | _, _, .nil, n => by simp
+  | _, _, .cons (f := f) (f' := f') hf hr, n => by
+    have ih := findFunc_sub hr n
+    by_cases hb : f.name = n
+    · simp [List.find?, hb, hf.name]; exact hf
+    · simp only [List.find?, hb, hf.name, decide_false]; exact ih
+
+
+/-! ### layout -/
+
+theorem instrOk_map {f : Func} {T : DomTab} {u : Pos} {i i' : Instr} (h : instrOk f T u i i' = true) :
+    ∃ g : Operand → Operand, i' = mapOps g i := by
+  simp only [instrOk, Bool.or_eq_true, decide_eq_true_eq, Bool.and_eq_true] at h
+  rcases h with rfl | ⟨⟨⟨h1, _⟩, _⟩, _⟩
+  · exact ⟨id, (mapOps_id i).symm⟩
+  · exact ⟨_, h1⟩
+
+theorem filterMap_sub {α : Type} {f : Func} {T : DomTab} {bn : String} (lit : Instr → Option α)
+    (hlit : ∀ g i, lit (mapOps g i) = lit i) :
+    ∀ {k : Nat} {l l' : List Instr}, InstrsSub f T bn k l l' → l'.filterMap lit = l.filterMap lit
+  | _, _, _, .nil => rfl
+  | _, _, _, .cons hok h => by
+    obtain ⟨g, rfl⟩ := instrOk_map hok
+    simp only [List.filterMap_cons, hlit, filterMap_sub lit hlit h]
+
+theorem blockLits_sub {f : Func} {T : DomTab} (fname : String) : ∀ {bs bs' : List Block}, BlocksSub f T bs bs' →
+    (bs'.flatMap fun b => b.instrs.filterMap fun
+      | .literal d data => some (fname, d, data)
+      | _ => none) =
+    (bs.flatMap fun b => b.instrs.filterMap fun
+      | .literal d data => some (fname, d, data)
+      | _ => none)
+  | _, _, .nil => rfl
+  | _, _, .cons _ ha hr => by
+    simp only [List.flatMap_cons]
+    rw [blockLits_sub fname hr, filterMap_sub _ (by intro g i; cases i <;> rfl) ha]
+
+theorem literals_sub : ∀ {fs fs' : List Func}, FuncsSub fs fs' →
+    (fs'.flatMap fun f => f.blocks.flatMap fun b => b.instrs.filterMap fun
+      | .literal d data => some (f.name, d, data)
+      | _ => none) =
+    (fs.flatMap fun f => f.blocks.flatMap fun b => b.instrs.filterMap fun
+      | .literal d data => some (f.name, d, data)
+      | _ => none)
+  | _, _, .nil => rfl
+  | _, _, .cons hf hr => by
+    simp only [List.flatMap_cons]
+    rw [literals_sub hr, hf.name, blockLits_sub _ hf.blocks]
+
+theorem funcNames_sub : ∀ {fs fs' : List Func}, FuncsSub fs fs' → fs'.map (·.name) = fs.map (·.name)
+  | _, _, .nil => rfl
+  | _, _, .cons hf hr => by simp only [List.map_cons, funcNames_sub hr, hf.name]
+
+theorem ModSub.literals {m m' : Module} (h : ModSub m m') : m'.literals = m.literals := literals_sub h.funcs
+
+theorem ModSub.layout {m m' : Module} (h : ModSub m m') (cfg : Config) : mkLayout cfg m' = mkLayout cfg m := by
+  simp only [mkLayout, h.literals, h.vars, Module.codeNames, funcNames_sub h.funcs, h.externs]
+
+theorem ModSub.initGlob {m m' : Module} (h : ModSub m m') (cfg : Config) (l : Layout) :
+    initGlob cfg m' l = initGlob cfg m l := by
+  simp only [Spec.IR.initGlob, h.literals, h.vars]
+
+structure CtxSub (ctx ctx' : Ctx) : Prop where
+  cfg : ctx'.cfg = ctx.cfg
+  layout : ctx'.layout = ctx.layout
+  oracle : ctx'.oracle = ctx.oracle
+  mod : ModSub ctx.mod ctx'.mod
+
+theorem mkCtx_sub {m m' : Module} (h : ModSub m m') (cfg : Config) (oracle : Oracle) :
+    CtxSub (mkCtx cfg m oracle) (mkCtx cfg m' oracle) := ⟨rfl, h.layout cfg, rfl, h⟩
+
+theorem evalOpnd_ctx {ctx ctx' : Ctx} (hlay : ctx'.layout = ctx.layout) (env : Env) (o : Operand) :
+    evalOpnd ctx' env o = evalOpnd ctx env o := by
+  cases o <;> simp only [evalOpnd, hlay]
+
+/-! ### phi values -/
+
+theorem lookupStr_map {α β : Type} (g : α → β) : ∀ (l : List (String × α)) (k : String),
+    lookupStr (l.map fun p => (p.1, g p.2)) k = (lookupStr l k).map g
+  | [], _ => rfl
+  | (y, v) :: r, k => by
+    simp only [List.map, lookupStr]
+    by_cases h : k = y
+    · simp [h]
+    · simp [h, lookupStr_map g r k]
+
+theorem mapOps_isPhi (g : Operand → Operand) (i : Instr) : (mapOps g i).isPhi = i.isPhi := by
+  cases i <;> rfl
+
+theorem phiValues_sub {ctx ctx' : Ctx} (hlay : ctx'.layout = ctx.layout) {f : Func} {T : DomTab} (hf : SSAFacts f T)
+    {pred : String} {env : Env} (hinv : InvAt ctx f T (pred, endIdx f pred) env) {bn : String} :
+    ∀ {k : Nat} {l l' : List Instr}, InstrsSub f T bn k l l' → phiValues ctx' env pred l' = phiValues ctx env pred l
+  | _, _, _, .nil => rfl
+  | _, _, _, .cons (i := i) (r := r) (r' := r') hok hrest => by
+    obtain ⟨g, rfl, _, _, hphi⟩ := instrOk_subAt (ctx := ctx) hf hok
+    have ih := phiValues_sub hlay hf hinv hrest
+    cases hp : i.isPhi with
+    | false =>
+      rw [phiValues_nonphi _ _ _ _ hp, phiValues_nonphi _ _ _ _ (by rw [mapOps_isPhi]; exact hp)]
+      exact ih
+    | true =>
+      obtain ⟨d, ty, ins, rfl⟩ := removable_not_phi_or hp
+      simp only [mapOps, phiValues, lookupStr_map]
+      cases hl : lookupStr ins pred with
+      | none => simp
+      | some o =>
+        simp only [Option.map]
+        have := hphi (pred, o) (by simp [Instr.phiIns]; exact lookupStr_mem hl) env hinv
+        simp only at this
+        rw [evalOpnd_ctx hlay, this, ih]
+
+
+/-! ### dynamic relation -/
+
+structure FrSub (fr fr' : Frame) : Prop where
+  fn : FnSub fr.fn fr'.fn
+  cur : fr'.cur = fr.cur
+  env : fr'.env = fr.env
+  sp : fr'.spSave = fr.spSave
+  retTo : fr'.retTo = fr.retTo
+  rest : ∃ b b' k, fr.fn.findBlock fr.cur = some b ∧ fr'.fn.findBlock fr.cur = some b' ∧
+    fr.rest = b.instrs.drop k ∧ fr'.rest = b'.instrs.drop k
+
+inductive FramesSub : List Frame → List Frame → Prop
+  | nil : FramesSub [] []
+  | cons {c c' : Frame} {cs cs' : List Frame} : FrSub c c' → FramesSub cs cs' → FramesSub (c :: cs) (c' :: cs')
+
+structure StSub (s s' : State) : Prop where
+  mem : s'.mem = s.mem
+  trace : s'.trace = s.trace
+  top : FrSub s.top s'.top
+  callers : FramesSub s.callers s'.callers
+
+def ResSub : StepR → StepR → Prop
+  | .next t, .next t' => StSub t t'
+  | .done o, .done o' => o' = o
+  | _, _ => False
+
+theorem finalGlobals_sub {ctx ctx' : Ctx} (hc : CtxSub ctx ctx') (mem : Mem) :
+    finalGlobals ctx' mem = finalGlobals ctx mem := by
+  simp only [finalGlobals, hc.cfg, hc.layout, hc.mod.vars]
+
+theorem doReturn_sub {ctx ctx' : Ctx} (hc : CtxSub ctx ctx') {s s' : State} (hs : StSub s s') (v : Option Val)
+    {R : StepR} (h : doReturn ctx s v = .ok R) : ∃ R', doReturn ctx' s' v = .ok R' ∧ ResSub R R' := by
+  obtain ⟨mem, top, callers, trace⟩ := s
+  obtain ⟨mem', top', callers', trace'⟩ := s'
+  obtain ⟨hmem, htr, htop, hcs⟩ := hs
+  simp only at hmem htr htop hcs
+  subst hmem htr
+  cases hcs with
+  | nil =>
+    simp only [doReturn, htop.sp, finalGlobals_sub hc] at h ⊢
+    split at h
+    · simp at h
+    · simp only [Except.ok.injEq] at h; subst h
+      exact ⟨_, rfl, rfl⟩
+  | cons hcc hcs =>
+    rename_i c c' cs cs'
+    simp only [doReturn, htop.sp, htop.retTo] at h ⊢
+    cases hrt : top.retTo with
+    | none =>
+      simp only [hrt, Except.ok.injEq] at h ⊢; subst h
+      exact ⟨_, rfl, ⟨rfl, rfl, hcc, hcs⟩⟩
+    | some d =>
+      cases v with
+      | none => simp [hrt] at h
+      | some x =>
+        simp only [hrt, Except.ok.injEq] at h ⊢; subst h
+        refine ⟨_, rfl, ?_⟩
+        refine ⟨rfl, rfl, ⟨hcc.fn, hcc.cur, by simp only [hcc.env], hcc.sp, hcc.retTo, hcc.rest⟩, hcs⟩
+
+theorem enterBlock_sub {ctx ctx' : Ctx} (hc : CtxSub ctx ctx') {fr fr' : Frame}
+    (hfn : FnSub fr.fn fr'.fn) (hcur : fr'.cur = fr.cur) (henv : fr'.env = fr.env)
+    (hsp : fr'.spSave = fr.spSave) (hrt : fr'.retTo = fr.retTo)
+    (hinv : InvAt ctx fr.fn (computeDoms fr.fn) (fr.cur, endIdx fr.fn fr.cur) fr.env)
+    (t : String) {nf : Frame} (h : enterBlock ctx fr t = .ok nf) :
+    ∃ nf', enterBlock ctx' fr' t = .ok nf' ∧ FrSub nf nf' := by
+  simp only [enterBlock, Func.findBlock] at h ⊢
+  have hfb := findBlock_sub hfn.blocks t
+  cases hb : fr.fn.blocks.find? (·.name = t) with
+  | none => simp [hb] at h
+  | some b =>
+    obtain ⟨b', hb', hal⟩ := hfb.2 b hb
+    simp only [hb, hb'] at h ⊢
+    rw [hcur, henv, phiValues_sub hc.layout hfn.facts hinv hal]
+    cases hv : phiValues ctx fr.env fr.cur b.instrs with
+    | error e => simp [hv, bind, Except.bind] at h
+    | ok vals =>
+      simp only [hv, bind, Except.bind, pure, Except.pure, Except.ok.injEq] at h
+      subst h
+      refine ⟨{ fr' with cur := t, rest := b'.instrs, env := fr.env.setMany vals },
+        by simp only [bind, Except.bind, pure, Except.pure], ?_⟩
+      exact ⟨hfn, rfl, rfl, hsp, hrt, b, b', 0, hb, hb', by simp, by simp⟩
+
+theorem newFrame_sub {cfg : Config} {f f' : Func} (hfn : FnSub f f')
+    (args : List Val) (sp : Nat) (rt : Option String) {fr : Frame}
+    (h : newFrame cfg f args sp rt = .ok fr) : ∃ fr', newFrame cfg f' args sp rt = .ok fr' ∧ FrSub fr fr' := by
+  simp only [newFrame, Func.findBlock, hfn.params, hfn.entry] at h ⊢
+  have hfb := findBlock_sub hfn.blocks f.entry
+  cases hp : bindParams cfg f.params args with
+  | none => simp [hp] at h
+  | some env =>
+    cases hb : f.blocks.find? (·.name = f.entry) with
+    | none => simp [hp, hb] at h
+    | some b =>
+      obtain ⟨b', hb', hal⟩ := hfb.2 b hb
+      simp only [hp, hb, Except.ok.injEq] at h
+      subst h
+      exact ⟨{ fn := f', cur := f.entry, rest := b'.instrs, env := env, spSave := sp, retTo := rt },
+        by simp only [hp, hb'], ⟨hfn, rfl, rfl, rfl, rfl, b, b', 0, hb, hb', by simp, by simp⟩⟩
+
+theorem callNamed_sub {ctx ctx' : Ctx} (hc : CtxSub ctx ctx') {s s' : State} (hmem : s'.mem = s.mem)
+    (htr : s'.trace = s.trace) (hcs : FramesSub s.callers s'.callers) {fr fr' : Frame}
+    (hfr : FrSub fr fr') (dst : Option (String × Ty)) (name : String) (vs : List Val) {R : StepR}
+    (h : callNamed ctx s fr dst name vs = .ok R) :
+    ∃ R', callNamed ctx' s' fr' dst name vs = .ok R' ∧ ResSub R R' := by
+  unfold callNamed at h ⊢
+  have hff := findFunc_sub hc.mod.funcs name
+  simp only [Module.findFunc] at h ⊢
+  cases hf : ctx.mod.funcs.find? (·.name = name) with
+  | some f =>
+    obtain ⟨f', hf', hfn⟩ := hff.2 f hf
+    simp only [hf, hf', hfn.ret] at h ⊢
+    have push : ∀ (rt : Option String),
+        (do let nf ← newFrame ctx.cfg f vs s.mem.stack.size rt
+            pure (StepR.next { s with top := nf, callers := fr :: s.callers }) : Except Err StepR) = .ok R →
+        ∃ R', (do let nf ← newFrame ctx'.cfg f' vs s'.mem.stack.size rt
+                  pure (StepR.next { s' with top := nf, callers := fr' :: s'.callers }) : Except Err StepR) = .ok R' ∧
+          ResSub R R' := by
+      intro rt h2
+      cases hnf : newFrame ctx.cfg f vs s.mem.stack.size rt with
+      | error e => simp [hnf, bind, Except.bind] at h2
+      | ok nf =>
+        obtain ⟨nf', hnf', hrel⟩ := newFrame_sub hfn vs s.mem.stack.size rt hnf
+        simp only [hnf, bind, Except.bind, pure, Except.pure, Except.ok.injEq] at h2
+        subst h2
+        refine ⟨.next { s' with top := nf', callers := fr' :: s'.callers },
+          by simp only [hc.cfg, hmem, hnf', bind, Except.bind, pure, Except.pure], ?_⟩
+        exact ⟨hmem, htr, hrel, .cons hfr hcs⟩
+    cases hret : f.ret <;> cases dst <;> simp only [hret] at h ⊢
+    · exact push _ h
+    · simp [throw, throwThe, MonadExceptOf.throw] at h
+    · exact push _ h
+    · exact push _ h
+  | none =>
+    have hf' := hff.1 hf
+    simp only [hf, hf', Module.findExtern, hc.mod.externs] at h ⊢
+    cases he : ctx.mod.externs.find? (·.name = name) with
+    | none => simp [he, throw, throwThe, MonadExceptOf.throw] at h
+    | some e =>
+      simp only [he] at h ⊢
+      split at h
+      · simp [throw, throwThe, MonadExceptOf.throw] at h
+      · rename_i hun
+        simp only [hun, Bool.false_eq_true, ↓reduceIte]
+        split at h
+        · simp only [pure, Except.pure, Except.ok.injEq] at h; subst h
+          refine ⟨_, rfl, ?_⟩
+          refine ⟨hmem, by simp only [htr, hc.cfg, hc.oracle], ?_, hcs⟩
+          simp only [htr, hc.cfg, hc.oracle]
+          exact ⟨hfr.fn, hfr.cur, by simp only [hfr.env], hfr.sp, hfr.retTo, hfr.rest⟩
+        · simp only [pure, Except.pure, Except.ok.injEq] at h; subst h
+          refine ⟨_, rfl, ?_⟩
+          exact ⟨hmem, by simp only [htr, hc.cfg, hc.oracle], hfr, hcs⟩
+        · simp only [pure, Except.pure, Except.ok.injEq] at h; subst h
+          refine ⟨_, rfl, ?_⟩
+          exact ⟨hmem, by simp only [htr], hfr, hcs⟩
+        · simp [throw, throwThe, MonadExceptOf.throw] at h
+        · simp [throw, throwThe, MonadExceptOf.throw] at h
+
+
+/-! ### one step -/
+
+theorem drop_len_inj {α : Type} {l : List α} {k k' : Nat} {x : α} {r : List α}
+    (h : l.drop k = x :: r) (h' : l.drop k' = x :: r) : k = k' := by
+  have e1 := congrArg List.length h
+  have e2 := congrArg List.length h'
+  simp only [List.length_drop, List.length_cons] at e1 e2
+  omega
+
+theorem subst_step {ctx ctx' : Ctx} (hc : CtxSub ctx ctx') {s s' : State} (hs : StSub s s') (hok : StateOK ctx s)
+    {R : StepR} (h : stepE ctx s = .ok R) : ∃ R', stepE ctx' s' = .ok R' ∧ ResSub R R' := by
+  obtain ⟨hmem, htr, htop, hcs⟩ := hs
+  obtain ⟨⟨hf, b0, k0, hb0, hrest0, hinv, _⟩, _⟩ := hok
+  obtain ⟨hfn, hcur, henv, hsp, hrt, b, b', k, hb, hb', hrest, hrest'⟩ := htop
+  cases hr : s.top.rest with
+  | nil => rw [stepE_nil hr] at h; simp at h
+  | cons i r =>
+    rw [hb0] at hb; have := Option.some.inj hb; subst this
+    rw [hr] at hrest hrest0
+    have hk : k0 = k := drop_len_inj hrest0.symm hrest.symm
+    subst hk
+    obtain ⟨hik, hdrop, hklt⟩ := drop_eq_cons hrest.symm
+    obtain ⟨hbm, hbn⟩ := findBlock_mem hb0
+    -- the transformed instruction
+    have hsubB : InstrsSub s.top.fn (computeDoms s.top.fn) b0.name 0 b0.instrs b'.instrs := by
+      obtain ⟨b2, hb2, hal⟩ := (findBlock_sub hfn.blocks s.top.cur).2 b0 hb0
+      simp only [Func.findBlock] at hb'
+      rw [hb'] at hb2; have := Option.some.inj hb2; subst this; exact hal
+    obtain ⟨i', r', hdrop', hok', hlen⟩ := instrsSub_drop hsubB k0 hrest.symm
+    rw [hdrop'] at hrest'
+    obtain ⟨hik', hdropr', hklt'⟩ := drop_eq_cons hdrop'
+    simp only [Nat.zero_add, hbn] at hok'
+    obtain ⟨g, rfl, hcallee, huses, hphis⟩ := instrOk_subAt (ctx := ctx) hf hok'
+    have hops : ∀ o ∈ i.uses, evalOpnd ctx' s'.top.env (g o) = evalOpnd ctx s.top.env o := by
+      intro o ho
+      rw [henv, evalOpnd_ctx hc.layout]
+      exact huses s.top.env hinv o ho
+    have hfrA : FrSub { s.top with rest := r } { s'.top with rest := r' } :=
+      ⟨hfn, hcur, henv, hsp, hrt, b0, b', k0 + 1, hb0, hb', hdrop.symm, hdropr'.symm⟩
+    cases he : effect ctx s.top.fn.name s.mem s.top.env i with
+    | some eff =>
+      have he' : effect ctx' s'.top.fn.name s'.mem s'.top.env (mapOps g i) = some eff := by
+        rw [hfn.name, hmem, effect_congr hc.cfg hc.layout g s.top.fn.name s.mem hops, he]
+      rw [stepE_effect hr he] at h
+      rw [stepE_effect hrest' he']
+      cases eff with
+      | error e => simp [Except.map] at h
+      | ok p =>
+        simp only [Except.map, Except.ok.injEq] at h ⊢
+        subst h
+        refine ⟨_, rfl, ?_⟩
+        refine ⟨rfl, htr, ?_, hcs⟩
+        refine ⟨hfn, hcur, ?_, hsp, hrt, b0, b', k0 + 1, hb0, hb', hdrop.symm, hdropr'.symm⟩
+        simp only [applyEff, henv]
+    | none =>
+      cases i <;> simp only [effect, reduceCtorEq] at he
+      case jump t =>
+        have hterm := terminator_is_last (hf.term b0 hbm) hik rfl
+        have hend : endIdx s.top.fn s.top.cur = k0 := by simp only [endIdx, hb0]; omega
+        simp only [mapOps] at hrest'
+        rw [stepE_jump hr] at h
+        rw [stepE_jump hrest']
+        cases hbk : enterBlock ctx { s.top with rest := r } t with
+        | error e => simp [hbk, bind, Except.bind] at h
+        | ok nf =>
+          obtain ⟨nf', hbk', hrel⟩ := enterBlock_sub hc (fr := { s.top with rest := r }) (fr' := { s'.top with rest := r' })
+            hfn hcur henv hsp hrt (by rw [hend]; exact hinv) t hbk
+          simp only [hbk, bind, Except.bind, pure, Except.pure, Except.ok.injEq] at h
+          subst h
+          exact ⟨.next { s' with top := nf' }, by simp only [hbk', bind, Except.bind, pure, Except.pure],
+            ⟨hmem, htr, hrel, hcs⟩⟩
+      case cjump a c b2 yes no =>
+        have hterm := terminator_is_last (hf.term b0 hbm) hik rfl
+        have hend : endIdx s.top.fn s.top.cur = k0 := by simp only [endIdx, hb0]; omega
+        simp only [mapOps] at hrest'
+        rw [stepE_cjump hr] at h
+        rw [stepE_cjump hrest', hops a (by simp [Instr.uses]), hops b2 (by simp [Instr.uses])]
+        cases hx : evalOpnd ctx s.top.env a with
+        | error e => simp [hx, bind, Except.bind] at h
+        | ok x =>
+          cases hy : evalOpnd ctx s.top.env b2 with
+          | error e => simp [hx, hy, bind, Except.bind] at h
+          | ok y =>
+            cases ht : evalCond c x y with
+            | error e => simp [hx, hy, ht, bind, Except.bind] at h
+            | ok tv =>
+              simp only [hx, hy, ht, bind, Except.bind] at h ⊢
+              cases hbk : enterBlock ctx { s.top with rest := r } (if tv then yes else no) with
+              | error e => simp [hbk] at h
+              | ok nf =>
+                obtain ⟨nf', hbk', hrel⟩ := enterBlock_sub hc (fr := { s.top with rest := r })
+                  (fr' := { s'.top with rest := r' }) hfn hcur henv hsp hrt (by rw [hend]; exact hinv) _ hbk
+                simp only [hbk, pure, Except.pure, Except.ok.injEq] at h
+                subst h
+                exact ⟨.next { s' with top := nf' }, by simp only [hbk', pure, Except.pure],
+                  ⟨hmem, htr, hrel, hcs⟩⟩
+      case ret v =>
+        simp only [mapOps] at hrest'
+        rw [stepE_ret hr] at h
+        rw [stepE_ret hrest', hfn.ret, hops v (by simp [Instr.uses])]
+        cases hret : s.top.fn.ret with
+        | none => simp [hret] at h
+        | some rt =>
+          simp only [hret] at h ⊢
+          cases hx : evalOpnd ctx s.top.env v with
+          | error e => simp [hx, bind, Except.bind] at h
+          | ok x =>
+            simp only [hx, bind, Except.bind] at h ⊢
+            exact doReturn_sub hc (s := { s with top := { s.top with rest := r } })
+              (s' := { s' with top := { s'.top with rest := r' } }) ⟨hmem, htr, hfrA, hcs⟩ _ h
+      case exit =>
+        simp only [mapOps] at hrest'
+        rw [stepE_exit hr] at h
+        rw [stepE_exit hrest', hfn.ret]
+        cases hret : s.top.fn.ret with
+        | some rt => simp [hret] at h
+        | none =>
+          simp only [hret] at h ⊢
+          exact doReturn_sub hc (s := { s with top := { s.top with rest := r } })
+            (s' := { s' with top := { s'.top with rest := r' } }) ⟨hmem, htr, hfrA, hcs⟩ _ h
+      case fcall d ty callee args =>
+        simp only [mapOps, calleeSame, decide_eq_true_eq] at hrest' hcallee
+        rw [← hcallee] at hrest'
+        rw [stepE_fcall hr, doCall_eq] at h
+        rw [stepE_fcall hrest', doCall_eq]
+        have hcal : calleeName ctx' s'.top.env callee = calleeName ctx s.top.env callee := by
+          have hco := hops callee (by simp [Instr.uses])
+          rw [← hcallee] at hco
+          cases callee with
+          | glob n => simp only [calleeName, hc.layout]
+          | loc x => simp only [calleeName, hc.layout, evalAddr_congr "call" hco]
+        have hargs : evalOpnds ctx' s'.top.env (args.map g) = evalOpnds ctx s.top.env args :=
+          evalOpnds_congr g args (fun o ho => hops o (by simp [Instr.uses, ho]))
+        simp only at h ⊢
+        rw [hcal, hargs]
+        cases hn : calleeName ctx s.top.env callee with
+        | error e => simp [hn, bind, Except.bind] at h
+        | ok name =>
+          cases hvs : evalOpnds ctx s.top.env args with
+          | error e => simp [hn, hvs, bind, Except.bind] at h
+          | ok vs =>
+            simp only [hn, hvs, bind, Except.bind] at h ⊢
+            exact callNamed_sub hc hmem htr hcs hfrA _ _ _ h
+      case pcall callee args =>
+        simp only [mapOps, calleeSame, decide_eq_true_eq] at hrest' hcallee
+        rw [← hcallee] at hrest'
+        rw [stepE_pcall hr, doCall_eq] at h
+        rw [stepE_pcall hrest', doCall_eq]
+        have hcal : calleeName ctx' s'.top.env callee = calleeName ctx s.top.env callee := by
+          have hco := hops callee (by simp [Instr.uses])
+          rw [← hcallee] at hco
+          cases callee with
+          | glob n => simp only [calleeName, hc.layout]
+          | loc x => simp only [calleeName, hc.layout, evalAddr_congr "call" hco]
+        have hargs : evalOpnds ctx' s'.top.env (args.map g) = evalOpnds ctx s.top.env args :=
+          evalOpnds_congr g args (fun o ho => hops o (by simp [Instr.uses, ho]))
+        simp only at h ⊢
+        rw [hcal, hargs]
+        cases hn : calleeName ctx s.top.env callee with
+        | error e => simp [hn, bind, Except.bind] at h
+        | ok name =>
+          cases hvs : evalOpnds ctx s.top.env args with
+          | error e => simp [hn, hvs, bind, Except.bind] at h
+          | ok vs =>
+            simp only [hn, hvs, bind, Except.bind] at h ⊢
+            exact callNamed_sub hc hmem htr hcs hfrA _ _ _ h
+
+
+/-! ### the theorem -/
+
+theorem initState_sub {ctx ctx' : Ctx} (hc : CtxSub ctx ctx') (fname : String) (args : List Val) {s : State}
+    (h : initState ctx fname args = .ok s) : ∃ s', initState ctx' fname args = .ok s' ∧ StSub s s' := by
+  simp only [initState, Module.findFunc] at h ⊢
+  have hff := findFunc_sub hc.mod.funcs fname
+  cases hf : ctx.mod.funcs.find? (·.name = fname) with
+  | none => simp [hf] at h
+  | some f =>
+    obtain ⟨f', hf', hfn⟩ := hff.2 f hf
+    simp only [hf, hf'] at h ⊢
+    cases hnf : newFrame ctx.cfg f args 0 none with
+    | error e => simp [hnf, bind, Except.bind] at h
+    | ok fr =>
+      obtain ⟨fr', hnf', hrel⟩ := newFrame_sub hfn args 0 none hnf
+      simp only [hnf, bind, Except.bind, pure, Except.pure, Except.ok.injEq] at h
+      subst h
+      refine ⟨{ mem := { glob := initGlob ctx'.cfg ctx'.mod ctx'.layout, stack := #[] }, top := fr', callers := [], trace := [] },
+        by simp only [hc.cfg, hnf', bind, Except.bind, pure, Except.pure], ?_⟩
+      refine ⟨?_, rfl, hrel, .nil⟩
+      simp only [hc.cfg, hc.layout, hc.mod.initGlob]
+
+/-- **Soundness of the substitution validator**: replacing operands by operands that `checkSubst` can justify
+    (common subexpressions, equal constants, folded integer constant expressions) preserves every defined
+    behaviour of every function, for all arguments, oracles, configurations and fuel. -/
+theorem checkSubst_sound {m m' : Module} (h : checkSubst m m' = true) (cfg : Config) : Preserves cfg m m' := by
+  intro oracle fname args fuel r g tr hex
+  have hms := checkSubst_modSub h
+  have hc := mkCtx_sub hms cfg oracle
+  have hmf : ModFacts (mkCtx cfg m oracle).mod := hms.modFacts
+  simp only [exec] at hex ⊢
+  cases hi : initState (mkCtx cfg m oracle) fname args with
+  | error e => simp [hi] at hex
+  | ok s =>
+    obtain ⟨s', hi', hrel⟩ := initState_sub hc fname args hi
+    have hok := initState_ok hmf hi
+    simp only [hi] at hex
+    obtain ⟨n', hn'⟩ := sim_run (ctx := mkCtx cfg m oracle) (ctx' := mkCtx cfg m' oracle)
+      (fun a a' => StSub a a' ∧ StateOK (mkCtx cfg m oracle) a)
+      (by
+        intro a a' t ⟨hR, hO⟩ hs
+        obtain ⟨R', hR', hres⟩ := subst_step hc hR hO (stepE_ok_of_step_next hs)
+        cases R' with
+        | done o => simp [ResSub] at hres
+        | next t' => exact ⟨1, t', iter_one (step_of_stepE hR'), hres, inv_step hmf hO hs⟩)
+      (by
+        intro a a' r g tr ⟨hR, hO⟩ hs
+        obtain ⟨R', hR', hres⟩ := subst_step hc hR hO (stepE_ok_of_step_done hs)
+        cases R' with
+        | next t' => simp [ResSub] at hres
+        | done o =>
+          simp only [ResSub] at hres; subst hres
+          exact ⟨1, by simp only [run, step_of_stepE hR']⟩)
+      fuel s s' r g tr ⟨hrel, hok⟩ hex
+    exact ⟨n', by simp only [hi', hn']⟩
 
 end Proofs.Opt
